@@ -9,7 +9,8 @@ CFG = dict(
          "WHERE none / plain / with an analytic call / both; cap 1,2,3 or default) and 6-30 rows of 2-5 partitions interleaved at random "
          "(typed keys incl. separator bytes, values float/int/NULL/missing/string/bool with repeats), each row sent through EmitSync and through Emit + sync sink "
          "(sentinel row ends the wait), plus 2 partition-key encoder ops; distinct = distinct (cfg, op list)",
-    assumptions=[
+    assumptions=["column spellings: partition keys also as nested fields (dev.k1), the first argument of an analytic call also qualified with a stream alias (s.v); a qualified column inside a wrapper expression / WHEN / WHERE is the recorded finding qualified-stream-column-in-expression (only in the corpus witness, class assigned from cfg colstyle qualw)",
+                 
         "float64 partition values are identified with their strconv.FormatFloat(x,'g',-1,64) text (NaN and -0 not generated)",
         "Go int widths are not distinguished in the model (harness uses int; typeKey tags int/int64/int32 differently, pinned by facts_constants)",
         "wrapper expressions are arithmetic over numeric/NULL/absent operands: int-int is an int, a float operand makes a float, NULL gives NULL; "
